@@ -171,8 +171,13 @@ class ConnectionState:
         response.add_untagged(IdResponse(self.config.id_response))
         return response, None
 
-    async def do_select(self, cmd: SelectCommand) -> _CommandRet:
+    def _deselect(self) -> None:
+        if self._selected is not None:
+            self._selected.deselect()
         self._selected = None
+
+    async def do_select(self, cmd: SelectCommand) -> _CommandRet:
+        self._deselect()
         mailbox, updates = await self.session.select_mailbox(
             cmd.mailbox, cmd.readonly)
         if updates.readonly:
@@ -288,7 +293,7 @@ class ConnectionState:
             # nothing is left to expunge if the mailbox was deleted meanwhile
             with suppress(MailboxNotFound):
                 await self.session.expunge_mailbox(self.selected)
-        self._selected = None
+        self._deselect()
         return ResponseOk(cmd.tag, cmd.command + b' completed.'), None
 
     async def do_expunge(self, cmd: ExpungeCommand) -> _CommandRet:
